@@ -10,6 +10,8 @@ package fdo
 // pinned down by the step contract of validateNextEntry below.
 //@ func fdo.Voucher.VerifyEntries
 //@   params v
+//@   local alg = UnOp#7
+//@   local err = call:cbor.Encoder.Encode#1 | call:cbor.Encoder.Encode#2 | extract1:call:protocol.PublicKey.Public#1
 //@   props C04 C10(sweep)
 //@   sweep bounds,panic,make,nilmem
 //@   modifies nothing
@@ -21,6 +23,7 @@ package fdo
 
 //@ func fdo.validateNextEntry
 //@   params prevOwnerKey alg prevHash headerInfoHash i entries
+//@   local err = call:cbor.Encoder.Encode#1 | extract1:call:cose.Sign1.Verify#1 | extract1:call:protocol.PublicKey.Public#1
 //@   props C04 C01 C06 C10(sweep)
 //@   sweep bounds,panic,make,nilmem
 //@   requires @nonempty len(entries) > 0
@@ -47,6 +50,9 @@ package fdo
 
 //@ func fdo.TO0Server.acceptOwner
 //@   params s ctx msg
+//@   local err = call:cbor.Decoder.Decode#1 | call:cbor.Encoder.Encode#1 | call:fdo.RendezvousBlobPersistentState.SetRVBlob#1 | call:fdo.Voucher.VerifyEntries#1 | extract1:call:cose.Sign1.Verify#1 | extract1:call:fdo.TO0Server.AcceptVoucher#1 | extract1:call:fdo.TO0SessionState.TO0SignNonce#1 | extract1:call:fdo.Voucher.OwnerPublicKey#1 | extract1:call:fdo.newHash#1
+//@   local sig = addr:Alloc#1
+//@   local ttl = Phi#1 | UnOp#13 | extract0:call:fdo.TO0Server.AcceptVoucher#1
 //@   props C06 C07(functional) C08 C10(sweep)
 //@   sweep bounds,panic,make,nilmem,nooverflow
 //@   callassert SetRVBlob#1: @to0dhash bytes(sig.To1d.Payload.Val.To0dHash.Value) == digest(happ(hinit(u(hashfn(sig.To1d.Payload.Val.To0dHash.Algorithm))), Enc(u(sig.To0d.Val))))
@@ -70,6 +76,8 @@ package fdo
 
 //@ func fdo.Voucher.VerifyManufacturerKey
 //@   params v keyHash
+//@   local digest = Phi#1 | call:crypto/sha256.New#1 | call:crypto/sha512.New384#1
+//@   local err = call:cbor.Encoder.Encode#1
 //@   props C04 C01 C10(sweep)
 //@   sweep bounds,panic,nilmem
 //@   modifies nothing
@@ -78,6 +86,9 @@ package fdo
 
 //@ func fdo.Voucher.VerifyCertChainHash
 //@   params v
+//@   local cchash = UnOp#4
+//@   local digest = extract0:call:fdo.newHash#1
+//@   local err = extract1:call:fdo.newHash#1 | extract1:call:io.Writer.Write#1
 //@   props C04 C10(sweep)
 //@   sweep bounds,panic,nilmem
 //@   modifies nothing
@@ -87,6 +98,8 @@ package fdo
 // header MAC: the MAC over the re-encoded header, under the device's secret
 //@ func fdo.hmacVerify
 //@   params h256 h384 h1 v
+//@   local err = call:cbor.Encoder.Encode#1 | call:fdo.fallibleHash.Err#1
+//@   local h = Phi#1
 //@   props C04 C01 C10(sweep)
 //@   sweep bounds,nilmem
 //@   requires @h256 h256 != nil
@@ -107,6 +120,13 @@ package fdo
 
 //@ func fdo.TO1Server.rvRedirect
 //@   params s ctx msg
+//@   local blob = extract0:call:fdo.RendezvousBlobPersistentState.RVBlob#1
+//@   local err = call:cbor.Decoder.Decode#1 | call:cbor.Unmarshal#1 | extract1:call:cose.Sign1.Verify#1 | extract1:call:fdo.TO1SessionState.TO1ProofNonce#1 | extract1:call:fdo.Voucher.DevicePublicKey#1 | extract2:call:fdo.RendezvousBlobPersistentState.RVBlob#1
+//@   local guid = UnOp#11 | addr:Alloc#7
+//@   local nonce = extract0:TypeAssert#1
+//@   local ov = extract1:call:fdo.RendezvousBlobPersistentState.RVBlob#1
+//@   local token = UnOp#12 | addr:Alloc#1
+//@   local ueid = extract0:TypeAssert#2
 //@   props C07 C08 C10(sweep)
 //@   sweep bounds,panic,make,nilmem
 //@   ensures @nonce ? err == nil ==> bytes(nonce) == TO1NonceOf(u(ctx))
@@ -120,6 +140,11 @@ package fdo
 
 //@ func fdo.sendHelloDevice
 //@   params ctx transport c
+//@   local err = call:cbor.Decoder.Decode#1 | call:cbor.Decoder.Decode#2 | call:cbor.Encoder.Encode#1 | extract1:call:cose.HeaderMap.Parse#1 | extract1:call:cose.HeaderMap.Parse#2 | extract1:call:cose.Sign1.Verify#1 | extract1:call:crypto/rand.Read#1 | extract1:call:fdo.newHash#1 | extract1:call:fdo.sigInfoFor#1 | extract1:call:protocol.PublicKey.Public#1 | extract2:call:fdo.Transport.Send#1
+//@   local hello = UnOp#16
+//@   local key = extract0:call:protocol.PublicKey.Public#1
+//@   local proveOVHdr = UnOp#81 | addr:Alloc#10
+//@   local proveOVNonce = UnOp#12 | UnOp#93 | addr:Alloc#5
 //@   maxpaths 2000
 //@   modifies nothing
 //@   props C01 C10(sweep)
@@ -134,6 +159,8 @@ package fdo
 
 //@ func fdo.sendNextOVEntry
 //@   params ctx transport i
+//@   local err = call:cbor.Decoder.Decode#1 | call:cbor.Decoder.Decode#2 | extract2:call:fdo.Transport.Send#1
+//@   local ovNextEntry = addr:Alloc#6
 //@   props C01 C10(sweep)
 //@   sweep bounds,panic,make,nilmem
 //@   modifies nothing
@@ -143,6 +170,10 @@ package fdo
 
 //@ func fdo.verifyVoucher
 //@   params ctx transport to1d info c
+//@   local err = call:fdo.Voucher.VerifyEntries#1 | call:fdo.Voucher.VerifyHeader#1 | call:fdo.Voucher.VerifyManufacturerKey#1 | extract1:call:cose.Sign1.Verify#1 | extract1:call:fdo.sendNextOVEntry#1 | extract1:call:protocol.PublicKey.Public#1
+//@   local expectedOwnerPub = extract0:call:protocol.PublicKey.Public#1
+//@   local ov = UnOp#5 | addr:Alloc#1
+//@   local ownerPub = UnOp#10 | UnOp#15 | addr:Alloc#7
 //@   props C01 C07 C10(sweep)
 //@   sweep bounds,panic,make,nilmem
 //@   modifies nothing
@@ -188,6 +219,7 @@ package fdo
 // ---- signature option / sig-info / key-type tables (C09) ------------------------
 //@ func fdo.sigInfoFor
 //@   params key usePSS
+//@   local err = extract1:call:cose.SignatureAlgorithmFor#1 | extract1:call:fdo.signOptsFor#1
 //@   props C09 C10(sweep)
 //@   sweep panic,nilmem,bounds
 //@   pure
@@ -215,6 +247,13 @@ package fdo
 //@ spec macro devproven(proofobj, ov, guid, ctx, nonceClaim, ueidClaim) = SigOk(u(proofobj), DevKeyOf(u(*ov))) && u(ov) == VoucherFor(u(guid)) && u(guid) == SessGUID(u(ctx)) && bytes(nonceClaim) == ProveDvNonceOf(u(ctx)) && len(ueidClaim) == 17 && ueidClaim[0] == 1
 //@ func fdo.TO2Server.setupDevice
 //@   params s ctx msg
+//@   local err = call:cbor.Decoder.Decode#1 | call:cbor.Unmarshal#1 | call:cose.Sign1.Sign#1 | call:fdo.TO2SessionState.SetSetupDeviceNonce#1 | call:fdo.TO2SessionState.SetXSession#1 | call:kex.Session.SetParameter#1 | extract1:call:cose.HeaderMap.Parse#1 | extract1:call:cose.Sign1.Verify#1 | extract1:call:fdo.TO2SessionState.GUID#1 | extract1:call:fdo.TO2SessionState.ProveDeviceNonce#1 | extract1:call:fdo.Voucher.DevicePublicKey#1 | extract1:call:fdo.VoucherPersistentState.Voucher#1 | extract1:call:fdo.signOptsFor#1 | extract2:call:fdo.TO2Server.ownerKey#1 | extract2:call:fdo.TO2Server.replacementCredential#1 | extract2:call:fdo.TO2SessionState.XSession#1
+//@   local guid = UnOp#24 | UnOp#25 | addr:Alloc#10 | extract0:call:fdo.TO2SessionState.GUID#1
+//@   local nonceClaim = extract0:TypeAssert#1
+//@   local ov = extract0:call:fdo.VoucherPersistentState.Voucher#1
+//@   local proof = UnOp#31 | addr:Alloc#3
+//@   local ueidClaim = extract0:TypeAssert#2
+//@   local xB = extract0:TypeAssert#4
 //@   props C02 C08 C10(sweep)
 //@   sweep bounds,panic,make,nilmem
 //@   callassert SetParameter#1: @proven devproven(proof.Sign1, ov, guid, ctx, nonceClaim, ueidClaim)
@@ -237,24 +276,32 @@ package fdo
 // error message (255), never by anything else (C08, C10) ----------------------------------
 //@ func fdo.DIServer.Respond
 //@   params s ctx msgType msg
+//@   local resp = MakeInterface#1 | MakeInterface#2 | Phi#2
+//@   local respType = Phi#1
 //@   props C08 C10
 //@   sweep bounds,panic,make,nilmem
 //@   ensures @answer respType == 255 || ((msgType == 10 || msgType == 12) && respType == msgType + 1)
 //@   ensures @nonnil respType == 255 ==> resp != nil
 //@ func fdo.TO0Server.Respond
 //@   params s ctx msgType msg
+//@   local resp = MakeInterface#1 | MakeInterface#2 | Phi#2
+//@   local respType = Phi#1
 //@   props C08 C10
 //@   sweep bounds,panic,make,nilmem
 //@   ensures @answer respType == 255 || ((msgType == 20 || msgType == 22) && respType == msgType + 1)
 //@   ensures @nonnil respType == 255 ==> resp != nil
 //@ func fdo.TO1Server.Respond
 //@   params s ctx msgType msg
+//@   local resp = MakeInterface#1 | MakeInterface#2 | Phi#2
+//@   local respType = Phi#1
 //@   props C08 C10
 //@   sweep bounds,panic,make,nilmem
 //@   ensures @answer respType == 255 || ((msgType == 30 || msgType == 32) && respType == msgType + 1)
 //@   ensures @nonnil respType == 255 ==> resp != nil
 //@ func fdo.TO2Server.Respond
 //@   params s ctx msgType msg
+//@   local resp = MakeInterface#1 | MakeInterface#2 | MakeInterface#3 | MakeInterface#4 | MakeInterface#5 | MakeInterface#6 | Phi#2
+//@   local respType = Phi#1
 //@   props C08 C10
 //@   sweep bounds,panic,make,nilmem
 //@   ensures @answer respType == 255 || ((msgType == 60 || msgType == 62 || msgType == 64 || msgType == 66 || msgType == 68 || msgType == 70) && respType == msgType + 1)
@@ -271,6 +318,9 @@ package fdo
 // OwnerProven(sess) is DEFINED as "verifyOwner returned this session without error".
 //@ func fdo.verifyOwner
 //@   params ctx transport to1d c
+//@   local err = call:fdo.verifyVoucher#1 | extract3:call:fdo.sendHelloDevice#1
+//@   local info = extract1:call:fdo.sendHelloDevice#1
+//@   local sess = extract2:call:fdo.sendHelloDevice#1
 //@   props C01 C10(sweep)
 //@   sweep bounds,panic,make
 //@   modifies nothing
@@ -282,6 +332,9 @@ package fdo
 // DeviceProven(sess) is DEFINED as "proveDevice returned without error for this session".
 //@ func fdo.proveDevice
 //@   params ctx transport proveDeviceNonce ownerPublicKey sess c
+//@   local err = call:cbor.Decoder.Decode#1 | call:cbor.Decoder.Decode#2 | call:cose.Sign1.Sign#1 | extract1:call:crypto/rand.Read#1 | extract1:call:fdo.reuseCredentials#1 | extract1:call:fdo.signOptsFor#1 | extract1:call:kex.Session.Parameter#1 | extract2:call:fdo.Transport.Send#1
+//@   local setupDevice = addr:Alloc#16
+//@   local setupDeviceNonce = UnOp#42 | UnOp#52 | UnOp#56 | UnOp#9 | addr:Alloc#4
 //@   props C01 C03 C10(sweep)
 //@   sweep bounds,panic,make
 //@   modifies nothing
@@ -313,6 +366,7 @@ package fdo
 // fallible (hardware) hash while finalising is reported, never returned as a MAC
 //@ func fdo.hmacHash
 //@   params h v
+//@   local err = call:cbor.Encoder.Encode#1 | call:fdo.fallibleHash.Err#1
 //@   props C03 C01 C10(sweep)
 //@   sweep bounds,nilmem
 //@   modifies nothing
@@ -321,6 +375,7 @@ package fdo
 
 //@ func fdo.hashAlgFor
 //@   params devicePubKey ownerPubKey
+//@   local err = extract1:call:fdo.hashSizeForPubKey#1 | extract1:call:fdo.hashSizeForPubKey#2
 //@   props C04 C09 C10(sweep)
 //@   sweep bounds,panic,nilmem
 //@   pure
@@ -328,6 +383,11 @@ package fdo
 
 //@ func fdo.TO2
 //@   params ctx transport to1d c
+//@   local alg = Phi#1 | UnOp#11 | extract0:call:fdo.hashAlgFor#1
+//@   local err = call:cbor.Encoder.Encode#1 | call:fdo.exchangeServiceInfo#1 | call:fmt.Errorf#3 | extract1:call:fdo.hashAlgFor#1 | extract1:call:fdo.sendReadyServiceInfo#1 | extract1:call:protocol.PublicKey.Public#1 | extract2:call:fdo.proveDevice#1 | extract4:call:fdo.verifyOwner#1
+//@   local originalOVH = extract2:call:fdo.verifyOwner#1
+//@   local partialOVH = extract1:call:fdo.proveDevice#1
+//@   local replacementOVH = Alloc#6 | Phi#2
 //@   props C01 C03 C10(sweep)
 //@   sweep bounds,panic,make
 //@   maxpaths 20000
@@ -343,6 +403,7 @@ package fdo
 // ---- TO2 owner side: replacement voucher at Done (C03, C08) ------------------------------
 //@ func fdo.TO2Server.ownerKey
 //@   params s ctx keyType keyEncoding rsaBits
+//@   local err = Phi#2 | extract1:call:protocol.NewPublicKey#1 | extract1:call:protocol.NewPublicKey#2 | extract1:call:protocol.NewPublicKey#3 | extract2:call:fdo.OwnerKeyPersistentState.OwnerKey#1
 //@   nopaths
 //@   pure
 //@   ensures err == nil ==> result0 != nil && result1 != nil
@@ -350,6 +411,10 @@ package fdo
 
 //@ func fdo.TO2Server.to2Done2
 //@   params s ctx msg
+//@   local currentOV = extract0:call:fdo.VoucherPersistentState.Voucher#1
+//@   local done = addr:Alloc#1
+//@   local err = call:cbor.Decoder.Decode#1 | call:fdo.OwnerVoucherPersistentState.ReplaceVoucher#1 | extract1:call:fdo.TO2SessionState.GUID#1 | extract1:call:fdo.TO2SessionState.ProveDeviceNonce#1 | extract1:call:fdo.TO2SessionState.ReplacementGUID#1 | extract1:call:fdo.TO2SessionState.ReplacementHmac#1 | extract1:call:fdo.TO2SessionState.RvInfo#1 | extract1:call:fdo.TO2SessionState.SetupDeviceNonce#1 | extract1:call:fdo.VoucherPersistentState.Voucher#1 | extract2:call:fdo.TO2Server.ownerKey#1
+//@   local rsaBits = call:protocol.PublicKey.RsaBits#1
 //@   props C03 C08 C10(sweep)
 //@   sweep bounds,panic,make,nilmem
 //@   callsites ReplaceVoucher 1
@@ -362,6 +427,7 @@ package fdo
 
 //@ func fdo.TO2Server.ownerServiceInfoReady
 //@   params s ctx msg
+//@   local deviceReady = addr:Alloc#1
 //@   props C03 C08 C10(sweep)
 //@   sweep bounds,panic,make,nilmem
 //@   callassert SetReplacementHmac#1: @fromdevice u(arg2) == u(*deviceReady.Hmac)
@@ -370,6 +436,9 @@ package fdo
 // ---- DI (C03): credential and stored voucher are built from the same header -----------
 //@ func fdo.DI
 //@   params ctx transport info c
+//@   local alg = extract0:call:fdo.hashAlgFor#1
+//@   local err = call:cbor.Encoder.Encode#1 | call:fdo.setHmac#1 | call:fmt.Errorf#3 | extract1:call:fdo.appStart#1 | extract1:call:fdo.hashAlgFor#1 | extract1:call:protocol.PublicKey.Public#1
+//@   local ovh = extract0:call:fdo.appStart#1
 //@   props C03 C10(sweep)
 //@   sweep bounds,panic,make
 //@   ensures @nocred err != nil ==> result0 == nil
@@ -380,6 +449,7 @@ package fdo
 
 //@ func fdo.appStart
 //@   params ctx transport info
+//@   local err = call:cbor.Decoder.Decode#1 | call:cbor.Decoder.Decode#2 | extract2:call:fdo.Transport.Send#1
 //@   props C03 C10(sweep)
 //@   sweep bounds,panic,make,nilmem
 //@   modifies nothing
@@ -388,6 +458,8 @@ package fdo
 
 //@ func fdo.setHmac
 //@   params ctx transport hmac ovh
+//@   local msg = UnOp#4 | addr:Alloc#3
+//@   local ovhHash = extract0:call:fdo.hmacHash#1
 //@   props C03 C10(sweep)
 //@   sweep bounds,panic,make,nilmem
 //@   modifies nothing
@@ -396,6 +468,8 @@ package fdo
 
 //@ func fdo.DIServer.diDone
 //@   params s ctx msg
+//@   local deviceCertChain = extract0:call:fdo.DISessionState.DeviceCertChain#1
+//@   local req = addr:Alloc#1
 //@   props C03 C08 C10(sweep)
 //@   sweep bounds,panic,make,nilmem
 //@   callsites AddVoucher 1
@@ -404,6 +478,9 @@ package fdo
 
 //@ func fdo.DIServer.setCredentials
 //@   params s ctx msg
+//@   local err = call:cbor.Decoder.Decode#1 | call:fdo.DISessionState.SetDeviceCertChain#1 | call:fdo.DISessionState.SetIncompleteVoucherHeader#1 | call:fdo.interface.SetDeviceSelfInfo#1 | extract1:call:crypto/rand.Read#1 | extract1:call:fdo.DIServer.RvInfo#1 | extract1:call:fdo.DIServer.SignDeviceCertificate#1 | extract1:call:fdo.hashAlgFor#1 | extract1:call:protocol.PublicKey.Public#1 | extract2:call:fdo.DIServer.DeviceInfo#1
+//@   local ovh = Alloc#13
+//@   local rvInfo = extract0:call:fdo.DIServer.RvInfo#1
 //@   props C03 C08 C10(sweep)
 //@   sweep make
 //@   callsites SetIncompleteVoucherHeader 1
@@ -415,6 +492,12 @@ package fdo
 // recomputes (C04) --------------------------------------------------------------------------------------
 //@ func fdo.ExtendVoucher
 //@   params v owner nextOwner extra
+//@   local alg = extract0:call:fdo.hashAlgFor#1
+//@   local digest = call:crypto.Hash.New#1
+//@   local expectedOwnerPubKey = extract0:call:fdo.Voucher.OwnerPublicKey#1
+//@   local headerInfo = call:builtin.append#1
+//@   local nextOwnerPublicKey = extract0:call:protocol.NewPublicKey#1
+//@   local ownerPubKey = call:crypto.Signer.Public#1
 //@   props C04 C03 C10(sweep)
 //@   sweep bounds,panic,make
 //@   callsites newSignedEntry 1
@@ -426,6 +509,7 @@ package fdo
 
 //@ func fdo.newSignedEntry
 //@   params owner usePSS payload
+//@   local err = call:cose.Sign1.Sign#1 | extract1:call:fdo.signOptsFor#1
 //@   nopaths
 //@   modifies nothing
 //@   ensures err == nil ==> result0 != nil
@@ -439,6 +523,12 @@ package fdo
 // message 66 (no MTU in the session = 66 was skipped = error) (C08)
 //@ func fdo.TO2Server.produceOwnerServiceInfo
 //@   params s ctx moduleName module
+//@   local complete = extract1:call:serviceinfo.OwnerModule.ProduceInfo#1
+//@   local err = call:fdo.TO2SessionState.SetDevmod#1 | call:serviceinfo.ModulePersister.PersistModule#1 | extract1:call:fdo.TO2SessionState.MTU#1 | extract1:call:serviceinfo.ModuleStateMachine.NextModule#1 | extract2:call:serviceinfo.OwnerModule.ProduceInfo#1
+//@   local mtu = extract0:call:fdo.TO2SessionState.MTU#1
+//@   local producer = call:serviceinfo.NewProducer#1
+//@   local serviceInfo = call:serviceinfo.Producer.ServiceInfo#1
+//@   local size = call:serviceinfo.ArraySizeCBOR#1
 //@   props C08 C16 C10(sweep)
 //@   sweep bounds,panic,make
 //@   callsites NewProducer 1
@@ -462,6 +552,11 @@ package fdo
 // the one looked up under the name in front of the ':' of the key.
 //@ func fdo.handleOwnerModuleMessages
 //@   params ctx prevModuleName modules ownerInfo send
+//@   local active = addr:FieldAddr#1 | extract1:call:fdo.deviceModuleMap.Lookup#1 | extract1:call:fdo.deviceModuleMap.Lookup#2
+//@   local messageBody = extract1:call:serviceinfo.UnchunkReader.NextServiceInfo#1
+//@   local messageName = extract1:call:strings.Cut#1
+//@   local mod = extract0:call:fdo.deviceModuleMap.Lookup#1 | extract0:call:fdo.deviceModuleMap.Lookup#2
+//@   local moduleName = extract0:call:strings.Cut#1
 //@   props C16 C10(sweep)
 //@   sweep bounds,panic,make,nilmem,div
 //@   callsites handleOwnerModuleMessage 1
@@ -479,6 +574,8 @@ package fdo
 // exactly when the flag changes.
 //@ func fdo.handleActive
 //@   params prevActive mod moduleName messageBody send
+//@   local active = UnOp#2 | UnOp#3 | UnOp#4 | UnOp#5 | UnOp#6 | UnOp#7 | addr:Alloc#1
+//@   local err = call:cbor.Decoder.Decode#1 | call:cbor.Encoder.Encode#1 | call:serviceinfo.DeviceModule.Transition#1 | call:serviceinfo.UnchunkWriter.NextServiceInfo#1
 //@   props C16 C10(sweep)
 //@   sweep bounds,panic,make,nilmem,div
 //@   callsites NextServiceInfo 1
@@ -495,6 +592,8 @@ package fdo
 // the drain check: a module that leaves bytes of a message unread is an error
 //@ func fdo.handleOwnerModuleMessage
 //@   params ctx mod moduleName messageName messageBody send
+//@   local err = call:serviceinfo.DeviceModule.Receive#1 | extract1:call:io.Copy#1
+//@   local n = extract0:call:io.Copy#1
 //@   props C16 C10(sweep)
 //@   sweep bounds,panic,make,nilmem,div
 //@   callsites Receive 1
@@ -504,6 +603,13 @@ package fdo
 // Owner side.
 //@ func fdo.TO2Server.ownerServiceInfo
 //@   params s ctx msg
+//@   local complete = extract2:call:fdo.TO2SessionState.Devmod#1
+//@   local deviceInfo = addr:Alloc#1
+//@   local err = call:cbor.Decoder.Decode#1 | call:fdo.TO2SessionState.SetDevmod#1 | call:fdo.TO2SessionState.SetDevmod#2 | call:io.Closer.Close#1 | call:serviceinfo.ChunkWriter.Close#1 | call:serviceinfo.ChunkWriter.WriteChunk#1 | call:serviceinfo.ModulePersister.PersistModule#1 | call:serviceinfo.OwnerModule.HandleInfo#1 | extract1:call:fdo.TO2SessionState.GUID#1 | extract1:call:fdo.VoucherPersistentState.Voucher#1 | extract1:call:io.Copy#1 | extract2:call:serviceinfo.ModuleStateMachine.Module#1 | extract3:call:fdo.TO2SessionState.Devmod#1
+//@   local messageBody = extract1:call:serviceinfo.UnchunkReader.NextServiceInfo#1
+//@   local messageName = extract1:call:strings.Cut#1
+//@   local module = MakeInterface#2 | Phi#3 | extract1:call:serviceinfo.ModuleStateMachine.Module#1
+//@   local moduleName = Phi#2 | extract0:call:serviceinfo.ModuleStateMachine.Module#1 | extract0:call:strings.Cut#1
 //@   props C16 C08 C10(sweep,assert)
 //@   sweep bounds,panic,make,nilmem,div
 //@   callsites Module 1
@@ -522,6 +628,7 @@ package fdo
 // devmod on the owner side: complete only with a module list without gaps
 //@ func fdo.devmodOwnerModule.ProduceInfo
 //@   params d _ _
+//@   local err = call:serviceinfo.Devmod.Validate#1
 //@   props C16 C10(sweep)
 //@   sweep bounds,panic,make,nilmem,div
 //@   modifies nothing
@@ -536,6 +643,7 @@ package fdo
 // device side: Done is sent only after the owner reported IsDone
 //@ func fdo.exchangeServiceInfo
 //@   params ctx transport proveDvNonce setupDvNonce mtu initInfo sess c
+//@   local done = extract1:call:fdo.exchangeServiceInfoRound#1 | extract1:call:fdo.exchangeServiceInfoRound#2
 //@   props C16 C10(sweep)
 //@   sweep bounds,panic,make
 //@   requires @owner OwnerProven(u(sess))
@@ -552,6 +660,8 @@ package fdo
 // at least one was taken; the reader's key invariant is kept across the batch
 //@ func fdo.exchangeServiceInfoRound
 //@   params ctx transport mtu r w sess
+//@   local maxRead = BinOp#4 | Phi#1
+//@   local msg = UnOp#2 | addr:Alloc#1
 //@   props C15 C16 C10(sweep)
 //@   sweep bounds,panic,make,nilmem
 //@   requires @keyinv r.r != nil ==> hdr(len(r.key)) + len(r.key) <= len(r.rkey)
@@ -570,6 +680,14 @@ package fdo
 // and available with the requested cipher; the nonce signed is the one stored for Done
 //@ func fdo.TO2Server.proveOVHdr
 //@   params s ctx msg
+//@   local err = call:cbor.Decoder.Decode#1 | call:cbor.Unmarshal#1 | call:cose.Sign1.Sign#1 | call:fdo.TO2Server.VerifyVoucher#1 | call:fdo.TO2SessionState.SetGUID#1 | call:fdo.TO2SessionState.SetProveDeviceNonce#1 | call:fdo.TO2SessionState.SetXSession#1 | extract1:call:crypto/rand.Read#1 | extract1:call:fdo.Voucher.OwnerPublicKey#1 | extract1:call:fdo.VoucherPersistentState.Voucher#1 | extract1:call:fdo.newHash#1 | extract1:call:kex.Session.Parameter#1 | extract2:call:fdo.TO2Server.ownerKey#1 | extract2:call:fdo.keyTypeFor#1
+//@   local expectedCUPHOwnerKey = extract0:call:fdo.Voucher.OwnerPublicKey#1
+//@   local hello = addr:Alloc#3
+//@   local numEntries = call:builtin.len#1
+//@   local ov = extract0:call:fdo.VoucherPersistentState.Voucher#1
+//@   local ownerKey = extract0:call:fdo.TO2Server.ownerKey#1
+//@   local proveDeviceNonce = UnOp#26 | UnOp#39 | addr:Alloc#16
+//@   local sess = call:kex.Suite.New#1
 //@   props C02 C09 C08 C10(sweep)
 //@   sweep bounds,panic,make,nilmem
 //@   callsites Sign1.Sign 1
